@@ -56,6 +56,8 @@ def canon_alg(d) -> str:
 def invnames(ds):
     return run_model([f"invname {canon_alg(d)}" for d in ds])
 
+OBSERVED = {}
+
 def sound_batch(pairs):
     """pairs: (reported text, query text, answer) -> why|None; answers other than T claim nothing"""
     res = [None] * len(pairs)
@@ -67,7 +69,11 @@ def sound_batch(pairs):
         if dr is None:
             continue      # the reported text is not a printed sum of names: outside the soundness statement
         if dq is None:
-            res[k] = f"is_algebra({q!r}) is True for the reported algebra {rep!r}, but the text does not name an algebra"
+            # e.g. '4*so(5)*': the library's _parse_algebra reads items with split('*') and ignores what follows the name.
+            # That is a leniency of is_algebra's text parser, not a statement about the reported algebra (C01); the model
+            # reproduces it (correspondence) and C01Names_sound covers it through the model's own parse — no claim here.
+            OBSERVED["is_algebra accepts a text this file cannot read as a sum of names"] = OBSERVED.get("is_algebra accepts a text this file cannot read as a sum of names", 0) + 1
+            continue
             continue
         todo.append((k, dr, dq))
     if todo:
@@ -324,6 +330,9 @@ def extra_streams(rng, tier):
         rep = guard(lambda: str(coll(arg).get_algebra()))
         if rep.startswith("!"):
             rep = "u(1)"
+        # the order of the summands in get_algebra() is the iteration order of a set of objects hashed by identity: it differs
+        # from process to process; derive the query texts from a canonical order so that a seed always gives the same stream
+        rep = "+".join(sorted(rep.split("+")))
         for q in queries_for(rng, rep, 6):
             isalg.append(f"isalg {arg} {hx(q)}")
         for q in queries_for(rng, rep, 2) + [rng.choice(rep.split("+")), rep[rng.randrange(len(rep) + 1):][:rng.randint(0, 8)]]:
